@@ -36,8 +36,11 @@ def check_run(scn, run, drv, res, *, monitors_on=(), corr=("sim", "ticker"), cas
         name, exc = fails[0]
         res.violate(V("exception-escaped", f"{name}: {exc}", site=exc.split("(")[0][:60]), case)
         n += 1
-    if run["info"].get("stop") == "stalled" and not expect_failures:
-        res.violate(V("simulation-stalled", "nothing runnable and no timer pending before the requested ticks completed", site="stall"), case)
+    tid_ = monitors.master_tid(run)
+    open_tick = (len([e for e in run["trace"].of("t-call") if e["tid"] == tid_]) >
+                 len([e for e in run["trace"].of("t-done") if e["tid"] == tid_])) or tid_ is None
+    if run["info"].get("stop") == "stalled" and open_tick and not expect_failures:
+        res.violate(V("simulation-stalled", "a tick is in progress but nothing is runnable and no timer is pending", site="stall"), case)
         n += 1
     reqs = []
     if "sim" in corr:
